@@ -105,6 +105,13 @@ def enumerate_cases(tier: str, shard: int, nshards: int):
             if idx % nshards != shard:
                 continue
             yield {"src": "".join(combo), "cfg": C.simple("js-default"), "enum": True}
+    # one very long string in each sink (size thresholds such as 2**16 in helpers)
+    big = "a\"<&>" * 14000
+    for tpl in ("[a](u \"{p}\")", "![{p}](u)", "``` {p}\nx\n```\n", "`{p}`", "{p}", "    {p}\n", "[a](<{p}>)", "# {p}\n"):
+        idx += 1
+        if idx % nshards == shard:
+            pay = big.replace('"', '\\"') if '"{p}"' in tpl else (big.replace("<", "").replace(">", "") if "<{p}>" in tpl else big)
+            yield {"src": tpl.replace("{p}", pay), "cfg": C.simple("js-default"), "enum": True}
     for name in sorted(FAMILIES):
         for nn in (40, 700) if tier == "quick" else (40, 700, 8000):
             for preset in ("js-default", "commonmark"):
